@@ -9,7 +9,10 @@ package http2_test
 // (valid ones and single-field corruptions), every truncation offset, broken
 // prefaces, sessions played while the client does not read (the server's
 // writer is stuck), sessions that keep sending frames on a stream whose
-// RST_STREAM is still queued behind the stuck writer, sessions that continue
+// RST_STREAM is still queued behind the stuck writer, sessions in which a
+// non-reading client makes the server owe just enough acknowledgements that
+// its queued responses reach the end of the write buffer at every offset,
+// sessions that continue
 // after the connection has entered a graceful shutdown that is still waiting
 // for a request whose handler does not finish by itself (client GOAWAY with
 // and without an error code, or a "Connection: close" response), and four
@@ -24,7 +27,9 @@ package http2_test
 import (
 	"encoding/binary"
 	"fmt"
+	"io"
 	"net/http"
+	"os"
 	"strings"
 	"testing"
 	"testing/synctest"
@@ -176,6 +181,14 @@ var c16ResetItems = []string{
 	"PING", "H3o", "D3m", "WU3", "R3",
 }
 
+// c16BoundaryItems is the alphabet of the frames that follow the fill in the
+// "buffer-boundary" sessions: the stream subset below plus a rejected request,
+// so that the response that reaches the end of the server's write buffer can be
+// a PING ack (17 bytes), a SETTINGS ack (9), an RST_STREAM (13; rejected
+// request, WINDOW_UPDATE 0 / overflow), response HEADERS and DATA of a handler
+// (with and without END_STREAM), or nothing at all (RST_STREAM from the client).
+var c16BoundaryItems = append(append([]string(nil), c16StreamItems...), "Hnopath")
+
 // the stream-oriented subset used for the deep sessions with a stuck writer
 var c16StreamItems = []string{"H1o", "H1", "H3", "D1m", "D1", "WUzero1", "WUbig1", "WU1", "R1", "PING", "SET", "SETw0"}
 
@@ -213,9 +226,56 @@ func c16Flood(name string) []byte {
 	return b
 }
 
+// c16Fill returns the bytes of a "FILL:p:s" macro-event: p PING frames followed
+// by s empty SETTINGS frames. Each PING is answered with a 17-byte PING ack and
+// each SETTINGS with a 9-byte SETTINGS ack, so the macro makes the server owe
+// 17p+9s bytes of acknowledgements.
+func c16Fill(name string) []byte {
+	var p, n int
+	if _, err := fmt.Sscanf(name, "FILL:%d:%d", &p, &n); err != nil || p < 0 || n < 0 {
+		panic("bad fill " + name)
+	}
+	var b []byte
+	for i := 0; i < p; i++ {
+		b = append(b, c16Items["PING"]...)
+	}
+	for i := 0; i < n; i++ {
+		b = append(b, c16Items["SET"]...)
+	}
+	return b
+}
+
+// c16Fills returns the ways a debt of exactly f bytes of acknowledgements is
+// built from PING acks (17 bytes) and SETTINGS acks (9 bytes): the one with the
+// fewest SETTINGS and the one with the fewest PINGs (the server writes the
+// SETTINGS acks first, so the frame that reaches the end of the write buffer is
+// a PING ack in the first and, when f is a multiple of 9, a SETTINGS ack in the
+// second).
+func c16Fills(f int) []string {
+	var out []string
+	for n := 0; n < 17 && 9*n <= f; n++ {
+		if (f-9*n)%17 == 0 {
+			out = append(out, fmt.Sprintf("FILL:%d:%d", (f-9*n)/17, n))
+			break
+		}
+	}
+	for p := 0; p < 9 && 17*p <= f; p++ {
+		if (f-17*p)%9 == 0 {
+			if x := fmt.Sprintf("FILL:%d:%d", p, (f-17*p)/9); len(out) == 0 || out[0] != x {
+				out = append(out, x)
+			}
+			break
+		}
+	}
+	return out
+}
+
 func c16ItemBytes(name string) []byte {
 	if strings.HasPrefix(name, "FLOOD:") {
 		return c16Flood(name)
+	}
+	if strings.HasPrefix(name, "FILL:") {
+		return c16Fill(name)
 	}
 	b, ok := c16Items[name]
 	if !ok {
@@ -236,6 +296,46 @@ type c16Run struct {
 	goAway  bool
 	goAwayE bool
 	frames  int
+	bufFull bool // seen at a quiescent point: the server's write buffer completely full while the client does not read
+}
+
+// readOneFrame is the client action "CLI:read1": the client, which has stopped
+// reading, takes exactly one frame (9-byte header, then the announced payload)
+// out of the connection and stops again. Its receive buffer admits exactly the
+// bytes it is about to take, so a server write that was blocked proceeds that
+// far and no further.
+func (r *c16Run) readOneFrame() {
+	s := r.s
+	var got []byte
+	take := func(n int) bool {
+		s.cli.SetReadBufferSize(n)
+		synctest.Wait()
+		s.cli.SetReadBufferSize(0)
+		b := make([]byte, n)
+		m := 0
+		for m < n {
+			k, err := s.cli.Read(b[m:])
+			m += k
+			if err == io.EOF {
+				s.closed = true
+			}
+			if err != nil || k == 0 {
+				break
+			}
+		}
+		got = append(got, b[:m]...)
+		return m == n
+	}
+	if take(9) {
+		if n := int(got[0])<<16 | int(got[1])<<8 | int(got[2]); n > 0 {
+			take(n)
+		}
+	}
+	fs := s.wire.feed(got, s.step)
+	s.frames = append(s.frames, fs...)
+	s.step++
+	r.note(fs)
+	synctest.Wait()
 }
 
 func (r *c16Run) fail(sig, format string, a ...any) { r.w.Failf("C16/"+sig, format, a...) }
@@ -289,6 +389,9 @@ func (r *c16Run) check(where string) {
 	}
 	if !s.sc.C15ServeDone() {
 		pk := s.sc.C15Peek()
+		if pk.WritingFrame && s.sc.C16WriteBufAvailable() == 0 {
+			r.bufFull = true
+		}
 		if pk.QueuedControlFrames > MaxQueuedControlFrames+1 {
 			r.fail("bounds/queued-control-frames", "%s: %d control frames queued (limit %d)", where, pk.QueuedControlFrames, MaxQueuedControlFrames)
 		}
@@ -425,6 +528,20 @@ func c16Exec(t testing.TB, w *vx.W, cs c16Case) {
 		s.cli.SetReadBufferSize(1)
 	}
 	for i, it := range cs.Items {
+		if it == "CLI:read1" {
+			if cs.Burst || !blocked {
+				panic("CLI:read1 needs an item-by-item session with a non-reading client")
+			}
+			if s.writeErr || s.closed {
+				break
+			}
+			r.readOneFrame()
+			r.check("after the client read one frame and stopped reading again")
+			if w.Failed() {
+				return
+			}
+			continue
+		}
 		b := c16ItemBytes(it)
 		if i == len(cs.Items)-1 && cs.Cut > 0 {
 			if cs.Cut >= len(b) {
@@ -569,6 +686,9 @@ func c16Classify(w *vx.W, r *c16Run, outcome string) {
 	if r.goAway && !r.goAwayE {
 		outcome += "+graceful-goaway"
 	}
+	if r.bufFull {
+		outcome += "+write-buffer-full"
+	}
 	w.Outcome(outcome)
 }
 
@@ -601,11 +721,58 @@ func TestVerif_C16(t *testing.T) {
 		rstLen := vx.Pick(c, 3, 4)
 		rstBlockers := vx.Pick(c, []string{"PING"}, []string{"PING", "SET"})
 		shutLen := vx.Pick(c, 1, 2)
-		c.Rule(fmt.Sprintf("sessions over %d raw frame templates (valid frames of every type and single-field corruptions: lengths, stream ids, flags, padding, HPACK garbage, limits): (frames) valid preface+SETTINGS then every sequence of <=%d templates, item by item and as one burst followed by an immediate hang-up, handler writing / handler blocking; (truncate) every sequence of <=%d templates cut at every byte offset of its last template; (preface) no / short / wrong / split preface and missing SETTINGS before every template; (stuck-writer) every sequence of <=%d templates of a 12-template stream subset while the client does not read, for each of the four write schedulers (quick: length-4 sessions on the RFC 7540 scheduler only), then the client reads again; (queued-reset) the client stops reading, a PING (thorough: PING or SETTINGS) is answered so that the writer is blocked in a flush and every RST_STREAM the server produces stays queued, then every sequence of <=%d templates of a %d-template alphabet — requests on stream 1 accepted (open / END_STREAM / Content-Length 1) and rejected with a stream error at every stage (invalid field name in the framer, self-dependency, no :path, unparsable :path, malformed CONNECT; with and without END_STREAM), then every frame type on that stream (DATA with/without END_STREAM, trailers and repeated HEADERS, RST_STREAM, WINDOW_UPDATE 1 / 0 / overflowing, PRIORITY, PRIORITY on itself, PRIORITY_UPDATE valid / unparsable, unknown type), PING, and a second stream with DATA / WINDOW_UPDATE / RST_STREAM — with MAX_CONCURRENT_STREAMS 2 and 1 (second stream refused) on all four schedulers (length-%d sessions: after PING on the default RFC 9218 scheduler with MAX_CONCURRENT_STREAMS 2 only), then the client reads again; (shutdown) a request on stream 1 (body left open / END_STREAM) whose handler blocks until cancelled / ignores cancellation / finishes at once, then a client GOAWAY (NO_ERROR / with an error code) — or no GOAWAY and a handler that answers with \"Connection: close\" and then blocks — so that the connection is in a graceful shutdown that waits for the stream (or has just completed), then every sequence of <=%d templates of the full alphabet, item by item and (<=1 template) as one burst followed by an immediate hang-up; (floods) %d x PING / SETTINGS / HEADERS+RST_STREAM / empty CONTINUATION with reading and non-reading client on all four schedulers; each session on a fresh real server in its own synctest bubble; non-trivial = session ran to its end-of-session probe", len(names), seqLen, vx.Pick(c, 1, 2), blkLen, rstLen, len(c16ResetItems), rstLen, shutLen, c16FloodN))
+		bndLen := vx.Pick(c, 1, 2)
+		bndW := vx.Pick(c, 48, 128) // free bytes swept: 0..bndW (PING ack 17, SETTINGS ack 9, RST_STREAM 13, response HEADERS+DATA of the harness handler < 128)
+		bndW2 := 48                 // the same for sessions with 2 templates after the fill
+		bndScheds := vx.Pick(c, []string{""}, []string{"", "7540", "rr", "rand"})
+		c.Rule(fmt.Sprintf("sessions over %d raw frame templates (valid frames of every type and single-field corruptions: lengths, stream ids, flags, padding, HPACK garbage, limits): (frames) valid preface+SETTINGS then every sequence of <=%d templates, item by item and as one burst followed by an immediate hang-up, handler writing / handler blocking; (truncate) every sequence of <=%d templates cut at every byte offset of its last template; (preface) no / short / wrong / split preface and missing SETTINGS before every template; (stuck-writer) every sequence of <=%d templates of a 12-template stream subset while the client does not read, for each of the four write schedulers (quick: length-4 sessions on the RFC 7540 scheduler only), then the client reads again; (queued-reset) the client stops reading, a PING (thorough: PING or SETTINGS) is answered so that the writer is blocked in a flush and every RST_STREAM the server produces stays queued, then every sequence of <=%d templates of a %d-template alphabet — requests on stream 1 accepted (open / END_STREAM / Content-Length 1) and rejected with a stream error at every stage (invalid field name in the framer, self-dependency, no :path, unparsable :path, malformed CONNECT; with and without END_STREAM), then every frame type on that stream (DATA with/without END_STREAM, trailers and repeated HEADERS, RST_STREAM, WINDOW_UPDATE 1 / 0 / overflowing, PRIORITY, PRIORITY on itself, PRIORITY_UPDATE valid / unparsable, unknown type), PING, and a second stream with DATA / WINDOW_UPDATE / RST_STREAM — with MAX_CONCURRENT_STREAMS 2 and 1 (second stream refused) on all four schedulers (length-%d sessions: after PING on the default RFC 9218 scheduler with MAX_CONCURRENT_STREAMS 2 only), then the client reads again; (buffer-boundary) the client stops reading, a PING (thorough: PING or SETTINGS) is answered so that the writer is blocked in a flush, then the client sends p PINGs and s SETTINGS so that the server owes exactly f = 17p+9s bytes of acks, for every f from %d-%d to %d (the server's write buffer size) in the composition with the fewest SETTINGS and in the one with the fewest PINGs, then every sequence of <=%d templates of the stream subset + a rejected request (2-template sequences: f >= %d-%d, default scheduler, after PING), then the client takes exactly one frame out of the connection and stops reading again, so that the server writes its queued responses back-to-back and every kind of response (PING ack, SETTINGS ack, RST_STREAM, response HEADERS / DATA) is started with every number 0..%d of bytes free in the write buffer while the peer accepts nothing (quick: default scheduler; thorough: all four), then the client reads again; (shutdown) a request on stream 1 (body left open / END_STREAM) whose handler blocks until cancelled / ignores cancellation / finishes at once, then a client GOAWAY (NO_ERROR / with an error code) — or no GOAWAY and a handler that answers with \"Connection: close\" and then blocks — so that the connection is in a graceful shutdown that waits for the stream (or has just completed), then every sequence of <=%d templates of the full alphabet, item by item and (<=1 template) as one burst followed by an immediate hang-up; (floods) %d x PING / SETTINGS / HEADERS+RST_STREAM / empty CONTINUATION with reading and non-reading client on all four schedulers; each session on a fresh real server in its own synctest bubble; non-trivial = session ran to its end-of-session probe", len(names), seqLen, vx.Pick(c, 1, 2), blkLen, rstLen, len(c16ResetItems), rstLen, C16WriteBufSize, bndW, C16WriteBufSize, bndLen, C16WriteBufSize, bndW2, bndW, shutLen, c16FloodN))
 		c.Assume("\"bounded time\" is 30 s of synctest fake time; a session that stops in the middle of a frame may leave the server waiting for the rest (no read timeout is configured), which counts as serving; after GOAWAY without error the server is still required to answer PING or to have closed")
 		c.Assume("panics on the serve goroutine are observed through the package's testHookOnPanic (the connection is torn down instead of the process); panics on any other goroutine kill the shard and are attributed by the driver (crash_is_violation)")
 		opts := vx.Opts{Serial: true, Crumb: true}
-		// stuck writer first: it is the deepest part
+		// buffer-boundary: the client has stopped reading and the answer to
+		// its PING (thorough: or SETTINGS) is blocked in a flush. The client
+		// then makes the server owe exactly f bytes of PING / SETTINGS acks,
+		// for every f from bufsize-bndW to bufsize, sends a few more frames,
+		// and finally takes one frame (the blocked answer) out of the
+		// connection without reading on. The server now writes everything it
+		// owes back-to-back, so that every kind of response is started with
+		// every number of free bytes 0..bndW left in the write buffer while
+		// the connection accepts no more bytes; a frame that does not fit must
+		// not be written by the serve goroutine.
+		vx.Enumerate(c, "buffer-boundary", opts, func(yield0 func(c16Case) bool) {
+			yield := c15Yield(c, yield0)
+			for n := 0; n <= bndLen; n++ {
+				for _, sc := range bndScheds {
+					for _, blocker := range rstBlockers {
+						if n == bndLen && n > 1 && (sc != "" || blocker != "PING") {
+							continue // the deepest level on one configuration only
+						}
+						w := bndW
+						if n > 1 {
+							w = bndW2
+						}
+						for d := 0; d <= w; d++ {
+							for _, fill := range c16Fills(C16WriteBufSize - d) {
+								ok := vx.Strings(c16BoundaryItems, n, n, func(items []string) bool {
+									if !c16PlausibleStream(items) {
+										return true
+									}
+									its := append([]string{blocker, fill}, items...)
+									return yield(c16Case{Cfg: sc + "-hw-blk", Pre: "ok", Items: append(its, "CLI:read1")})
+								})
+								if !ok {
+									return
+								}
+							}
+						}
+					}
+				}
+			}
+		}, func(w *vx.W, cs c16Case) { c16RunCase(c, w, cs) })
+		// stuck writer next: it is the deepest part
+		if os.Getenv("C16_TMP_ONLY_BND") != "" {
+			return
+		}
 		scheds := []string{"7540", "", "rr", "rand"}
 		vx.Enumerate(c, "stuck-writer", opts, func(yield0 func(c16Case) bool) {
 			yield := c15Yield(c, yield0)
